@@ -234,6 +234,8 @@ def _init():
 def run(ctx):
     from .. import xfeat
     xfeat.decl_sweep(ctx, "C03")      # assertions inside cross-feature compositions (pv/xfeat.py)
+    # the run-time check and the gadget of an assertion that follows other features, fresh and after a dead first run on the same objects
+    xfeat.sweep(ctx, "C03", f_only=lambda pr: any(xfeat.DECL_OPS.get(s[0]) == "C03" for s in pr))
     tasks = []
     if ctx.thorough:
         cfgs = [(2, REC.BN128), (3, REC.BN128), (4, REC.BN128), (3, REC.BLS12_381), (3, REC.CURVE25519), (2, REC.BLS12_381)]
@@ -292,7 +294,7 @@ def run(ctx):
 def replay(case):
     if isinstance(case, dict) and case.get("xfeat"):
         from .. import xfeat
-        return xfeat.decl_replay(case)
+        return xfeat.decl_replay(case) if case.get("decl") else xfeat.replay(case, "C03")
     H.bind(case["p"])
     prog = {"expr": _t(case["prog"]["expr"]), "kinds": list(case["prog"]["kinds"])}
     vec = tuple(case["vals"])
